@@ -1,6 +1,6 @@
 claim("C16",
-      "exhaustive byte strings + rapid strings against an input-reconstruction oracle",
-      "Every byte string of length <=4 (quick) / <=5 (thorough) over a 14-byte alphabet that reaches every lexer branch is lexed and checked against the input itself (prefix reconstruction with whitespace skipping, rune-boundary, Peek/Peek/Next agreement with an unpeeked twin lexer, EOF stickiness, error tokens only where the harness's own scanner sees a lexical error, Parse rejects); plus random byte/rune/hostile strings and printed queries with injected lexical errors. Held on everything explored; not a proof for longer inputs.",
+      "exhaustive byte strings + rapid strings + model-based Peek/Next histories (rapid state machine) against an input-reconstruction oracle",
+      "Every byte string of length <=4 (quick) / <=5 (thorough) over a 14-byte alphabet that reaches every lexer branch is lexed and checked against the input itself (prefix reconstruction with whitespace skipping, rune-boundary, Peek/Peek/Next agreement with an unpeeked twin lexer, EOF stickiness, error tokens only where the harness's own scanner sees a lexical error, Parse rejects); every emitted token must start with a character that can start a token; plus random byte / rune / hostile / low-byte-aliasing strings, printed queries with injected lexical errors, and random interleavings of Peek and Next checked against the token list of an unpeeked twin. Held on everything explored; not a proof for longer inputs.",
       "Trusts Go's utf8/unicode tables, rapid, and the harness's 20-line scanner for what counts as a lexical error. Token kinds and exact boundaries are deliberately not specified.",
       "DESIGN.md section 4, C16")
 claim("C01",
@@ -49,8 +49,8 @@ claim("C13",
       "Nothing is asserted about what the operations return. encoding/json is trusted. Nesting beyond 2000 levels would test the Go runtime's stack, not this code.",
       "DESIGN.md section 4, C13")
 claim("C15",
-      "rapid + enumerated trees x render-function maps; tracing fold (call log laid over the tree)",
-      "For generated and hand-built trees and, for every operator, a tracing map / single-operator override / removed / failing function: the call log must be exactly the bottom-up fold of the tree with the supplied functions (one call per node, right operator, children before parents, arguments are the children's results in at most one pair of parentheses, containers in order, root result returned); an override changes output only at that operator's nodes; a missing function yields an error and empty output iff the operator occurs; the stock renderers fail on every query containing ~ or ^.",
+      "rapid + enumerated trees x render-function maps; tracing fold (call log laid over the tree); model-based driver-isolation histories (rapid state machine)",
+      "For generated and hand-built trees and, for every operator, a tracing map / single-operator override / removed / failing function: the call log must be exactly the bottom-up fold of the tree with the supplied functions (one call per node, right operator, children before parents, arguments are the children's results in at most one pair of parentheses, containers in order, root result returned); an override changes output only at that operator's nodes; a missing function yields an error and empty output iff the operator occurs; the stock renderers fail on every query containing ~ or ^. A state machine creates, customises and strips drivers in random order: each must keep rendering like a private model of its own map, the stock renderers must keep refusing ~ and ^ and driver.Shared must stay as it was.",
       "The fold checker is harness code (trusted). Values containing the tracer's marker runes are skipped.",
       "DESIGN.md section 4, C15")
 claim("C14",
@@ -59,7 +59,7 @@ claim("C14",
       "The harness does not own the Go scheduler: interleavings are sampled; a race needs both conflicting accesses to execute (in any order) to be flagged. A schedule-dependent failure may not reproduce from the replay file, which therefore carries the history / race report.",
       "DESIGN.md section 4, C14")
 claim("C02",
-      "rapid hostile-content trees + exhaustive short token sequences; PostgreSQL's own scanner/grammar (pg_query) + whitelist walk + provenance sets",
+      "rapid hostile-content trees + exhaustive short token sequences + back-to-back (default field, query) splits; PostgreSQL's own scanner/grammar (pg_query) + whitelist walk + provenance sets",
       "Every rendered SQL text (inline and parameterized) of generated queries whose field names and values come from a hostile pool (quotes, backslashes, ;, --, /* */, $1, ?, NaN, NUL, invalid UTF-8, > 63-byte names; written quoted and as escaped bare words) is scanned and parsed by libpg_query inside SELECT 1 FROM t WHERE (...): one statement, nothing but the WHERE filled in, no comment / separator / unbalanced parenthesis, only whitelisted node kinds, placeholders == parameters, every column a field name of the query (or the default field), every string constant / parameter a value of the query.",
       "libpg_query v15 is PostgreSQL's grammar (trusted). Numeric constants are not tied to the query text here. Conditional on render success.",
       "DESIGN.md section 4, C02")
